@@ -243,7 +243,7 @@ class Tok:
 
     def __init__(self, s):
         self.items = []
-        s = sb.resolve_cuts(s, sb.CURRENT_WORLD[0])
+        s = sb.resolve_symbytes(sb.resolve_cuts(s, sb.CURRENT_WORLD[0]), sb.CURRENT_WORLD[0])
         for seg in s.segs:
             if isinstance(seg, bytes):
                 self.items.extend(seg)
@@ -552,7 +552,7 @@ def struct_decl(I, name):
 def _from_str(I, a, d):
     tf = turbofish_of(d, "from_str")
     target = tf[-1] if tf else None
-    text = as_sbytes(a[0])
+    text = sb.resolve_symbytes(as_sbytes(a[0]), I.w)
     if text.has_kind(sb.SymByte):
         raise Inconclusive("serde_json::from_str over symbolic bytes (the checksum guard should have rejected it)")
     try:
